@@ -130,3 +130,41 @@ def set_atom_makers():
 # re-exported for plugins
 all_p = all_p
 any_p = any_p
+
+
+# ---------------------------------------------------------------------------------------------------------------
+# "twins": predicates that PRINT alike but mean different things (repr hides the constant's type, all but the first class,
+# the function).  Anything keyed on repr() - a cache, a dedupe, a lookup - confuses them; the searches run their
+# operations on both members of a twin in sequence, in both orders, in one process.
+# ---------------------------------------------------------------------------------------------------------------
+def _closure(n):
+    return lambda x: isinstance(x, (int, float)) and not isinstance(x, bool) and x > n
+
+
+def _default(n):
+    def above(x, n=n):
+        return isinstance(x, (int, float)) and not isinstance(x, bool) and x > n
+    return above
+
+
+def twin_makers():
+    """[(make_a, make_b)]: repr(make_a()) == repr(make_b()) for the constant/class/function twins, a() != b() semantically"""
+    from predicate.standard_predicates import comp_p, is_instance_p
+    out = []
+    for f in (eq_p, ne_p, ge_p, gt_p, le_p, lt_p):
+        out.append((lambda f=f: f(2), lambda f=f: f("2")))
+    out.append((lambda: in_p(7), lambda: in_p("7")))
+    out.append((lambda: not_in_p(7), lambda: not_in_p("7")))
+    out.append((lambda: in_p(2, 3), lambda: in_p("2", "3")))
+    out.append((lambda: eq_p(None), lambda: eq_p("None")))
+    out.append((lambda: ne_p(None), lambda: ne_p("None")))
+    out.append((lambda: eq_p(1), lambda: eq_p("1")))
+    out.append((lambda: is_instance_p(int), lambda: is_instance_p(int, str)))
+    out.append((lambda: comp_p(len, eq_p(2)), lambda: comp_p(sum, eq_p(2))))
+    out.append((lambda: fn_p(_closure(2)), lambda: fn_p(_closure(100))))
+    out.append((lambda: fn_p(_default(2)), lambda: fn_p(_default(100))))
+    return out
+
+
+TWIN_VALUES = [None, True, False, 0, 1, 2, 3, 7, 50, 101, 2.0, 2.5, "1", "2", "3", "7", "None", "a", "", [2], [1, 1], (2, 0), [], (),
+               [7], ["2", "2"]]
